@@ -25,6 +25,28 @@ PROPS = {
         "assumptions": ["signatures of generated remote entries are valid (C03 covers invalid ones)", "timestamps are below 2^62"],
         "modelled": "sync.rs Replica::{insert,delete_prefix,insert_remote_entry,insert_entry}, validate_entry; ranger.rs Store::put; store/fs.rs parents, remove_prefix_filtered, entry_put, get_exact; store/fs/bounds.rs",
     },
+    "C01": {
+        "n": {"quick": 400, "thorough": 12000},
+        "shard_size": 25,
+        "relation": "Check.C01.check: every protocol message, both final contents and both SyncOutcome counters of a real two-replica session = Model.Ranger.session over the table-level store model",
+        "rule": "pairs of replica states built by C02-style histories (0-15 ops each, quick; 0-29 thorough; 1-3 authors, boundary keys, markers; a third share history; a tenth with an empty side), either side initiating, memory and file stores, default SyncConfig in 3/5 of the cases and (max_set_size, split_factor) from {0,2,3,8}x{2} + {0,1,2}x{3} + (3,4),(1,5),(8,5) otherwise; each pair runs a full session and an immediate second one through Replica::sync_initial_message / sync_process_message. Non-trivial = at least 3 messages; distinct = distinct case terms",
+        "spec_fail_text": "after a complete session the two real replicas do not both hold join(A0,B0), or the counters do not mirror, or the session exceeded 2(|A|+|B|)+4 messages, or a second session transferred something, or the implementation panicked",
+        "classes": {4: "twin-len"},
+        "bits": dict(BITS, **{"4": "twin-len pair among the starting entries", "8": "ordered-list reference differs (C08)"}),
+        "assumptions": ["fingerprints are collision free (XOR of BLAKE3): the model compares the fingerprinted entry lists; the harness checks every wire fingerprint against the real fingerprint of its list", "all entries are validly signed and not in the receiver's future (C03 covers the rest)"],
+        "modelled": "ranger.rs Message::init, Store::process_message, Store::put; sync.rs sync_initial_message, sync_process_message, validate_entry; store/fs.rs StoreInstance (get_first, get_range, get_fingerprint, prefixes_of, remove_prefix_filtered, entry_put)",
+    },
+    "C08": {
+        "n": {"quick": 250, "thorough": 8000},
+        "shard_size": 25,
+        "relation": "Check.C08.check: (a) real session transcript = Model.Ranger.process_message over om_ops (plain ordered list) = over fs_ops (table model); (b) StoreInstance::{get_first,get_range,prefixes_of,remove_prefix_filtered} = Model.FsStore = ordered-map definitions (filter range_contains etc.)",
+        "rule": "per case one session pair as in C01 (memory/file stores, all configurations) plus one probe case: a C02-style history, then 12 ranges (x<y, x>y wrap-around, x=y; ids of held entries, neighbours, unknown authors 00..,80..,ff..), first key, 6 parent lookups, one prefix removal with a timestamp bound. evaluations = cases (sessions + probes); non-trivial = a range answer that is neither empty nor everything (counted per range)",
+        "spec_fail_text": "a database-backed store operation (or a whole session transcript) differs from what the ordered-map definitions prescribe",
+        "classes": {4: "twin-len"},
+        "bits": dict(BITS, **{"2": "differs from the ordered-map reference"}),
+        "assumptions": ["fingerprints compared through their recorded preimages (collision freedom of XOR-of-BLAKE3 assumed)", "range bounds lie in the replica's own namespace (get_range does not clamp foreign-namespace bounds; no listed property covers that)"],
+        "modelled": "store/fs.rs StoreInstance as ranger::Store, store/fs/bounds.rs, ranger.rs process_message",
+    },
     "C05": {
         "n": {"quick": 120, "thorough": 1500},
         "shard_size": 40,
@@ -39,6 +61,8 @@ PROPS = {
 NOT_APPLICABLE = {}
 
 LEVEL_TEXT = {
+    "C01": "PARTIAL proof + full correspondence. Proved for every message, store content and configuration: the store after processing a message is reduce(valid values ++ previous content) (step soundness, hence no foreign entries), equal fingerprints are answered with silence (second session), and sent/received counters mirror after any complete session. Delivery completeness and the termination bound are not yet theorems: they are checked on every generated pair of reachable states by running complete sessions on the real replicas (both initiators, memory and file stores, 11 configurations) and comparing every protocol message, both final contents (= join), the counters, the message bound and the silent second session with the model.",
+    "C08": "PARTIAL proof + full correspondence. Proved: exactness of the database range bounds (namespace scan, author-prefix scan incl. 0xFF-edged keys), the store effect of a message is the same function for every store instance, the ordered-list instance holds the abstract store's set. Checked by correspondence: real session transcripts = the same algorithm over a plain ordered list, message by message; direct probes of get_range (three shapes), get_first, prefixes_of, remove_prefix_filtered against the table model and the ordered-map definitions.",
     "C05": "Theorems: every range bound a query path scans (namespace, author+key-prefix, author+exact key, by-key prefix/exact/namespace) is exact for all 32-byte ids and all byte keys (closed under the global context); the iterator model and the declarative query_spec are both compared with the real get_many/get_exact on generated states (with stale index rows) and queries over the full product of query dimensions. The equality run_query = query_spec itself is checked by the correspondence runs, not yet by a theorem (partial).",
     "C02": "Theorems (Coq, closed under the global context) that put computes reduce: content after any offer sequence = the non-dominated offers, hence independent of order/duplication; exact removal set/count; rejected = no-op. The real Replica (memory and file store) is compared per operation and on the final content with the table-level model and with the abstract put/reduce on generated operation sequences; a disagreement is classified into property-violating input vs. broken correspondence.",
 }
